@@ -131,3 +131,31 @@ Definition S_transpose_labeled : Prop := forall (L : Type) (lsort : list (@lpair
 
 (** the concrete sorters used to run the model satisfy the contract *)
 Definition S_ksort_ok : Prop := forall L : Type, @sorter_ok L ksort /\ @sorterd_ok L ksortd.
+
+(** * The function run by the model driver: for each transform, sequential ([par = false])
+      or parallel, both the [iter] and the [into_par_lenders] reading of the result are the
+      specification *)
+Definition xop_ok (op : xop) (g : list (list N)) : Prop :=
+  match op with
+  | XTranspose | XSymm _ => True
+  | XPermute perm => nlen perm = nlen g /\ below (nlen g) perm = true /\ NoDup perm
+  | XMap f m => nlen f = nlen g /\ below m f = true
+  end.
+
+Definition S_run_xop : Prop := forall sort sortd, sorter_ok sort -> sorterd_ok sortd ->
+  forall op g par p cuts arrival,
+  wf_graph g = true -> (0 < p)%nat -> legal_schedule cuts arrival (nlen g) -> xop_ok op g ->
+  run_xop sort sortd op par p cuts arrival g = (Some (xop_spec op g), Some (xop_spec op g)).
+
+(** refusal: a source out of range makes the sorter (hence every transform) fail *)
+Definition S_out_of_range : Prop := forall (L : Type) (srt : list (@lpair L) -> list (@lpair L)) n p X,
+  ext_sort srt n p X = None <-> exists e, In e X /\ n <= src e.
+
+
+(** the same for labelled transposition *)
+Definition S_run_labeled : Prop := forall (L : Type) (lsort : list (@lpair L) -> list (@lpair L)),
+  sorter_ok lsort ->
+  forall g par p cuts arrival,
+  wf_lgraph g = true -> (0 < p)%nat -> legal_schedule cuts arrival (nlen g) ->
+  run_parts lsort phi_transpose (nlen g) par p cuts arrival g
+  = (Some (transpose_labeled_spec g), Some (transpose_labeled_spec g)).
